@@ -513,10 +513,12 @@ ReprStep == /\ part = "repr" /\ ph = "run"
 
 (***************************************************************************)
 (* ctxop: what the documentation of Context says about attribute access,   *)
-(* calls and copies                                                        *)
+(* calls and copies (and LaTeXToPDF about a create_command that is not     *)
+(* callable)                                                               *)
 (***************************************************************************)
 CtxOps == {"get_present", "get_missing", "get_private", "set_public", "set_private", "call_pair", "call_ctxpair",
-           "call_bare_int", "call_bare_str", "deepcopy", "pickle", "bad_formatter", "custom_formatter", "as_element"}
+           "call_bare_int", "call_bare_str", "deepcopy", "pickle", "bad_formatter", "custom_formatter", "as_element",
+           "bad_create_command"}       \* the last one belongs to LaTeXToPDF: create_command that is not callable
 OR(ok, r, exc) == [ok |-> ok, r |-> r, exc |-> exc]
 CtxOpRef(op) == CASE op = "get_present" -> OR(TRUE, "value", "")
                   [] op = "get_missing" -> OR(FALSE, "", "LenaAttributeError")
@@ -526,7 +528,7 @@ CtxOpRef(op) == CASE op = "get_present" -> OR(TRUE, "value", "")
                   [] op \in {"call_pair", "call_ctxpair", "as_element"} -> OR(TRUE, "data-with-Context-of-its-context", "")
                   [] op \in {"call_bare_int", "call_bare_str"} -> OR(TRUE, "value-with-empty-Context", "")
                   [] op \in {"deepcopy", "pickle"} -> OR(TRUE, "equal-Context-same-representation", "")
-                  [] op = "bad_formatter" -> OR(FALSE, "", "LenaTypeError")
+                  [] op \in {"bad_formatter", "bad_create_command"} -> OR(FALSE, "", "LenaTypeError")
                   [] OTHER -> OR(TRUE, "formatter-output", "")
 CtxOpStep == /\ part = "ctxop" /\ ph = "run"
              /\ res' = CtxOpRef(sc.op) /\ ph' = "done" /\ UNCHANGED <<part, sc, w>>
